@@ -183,7 +183,13 @@ func (rs *bodyStream) Read(p []byte) (int, error) {
 	var err error
 	// read from the pre-read buffer
 	if int(rs.prefetchedBytes.Size()) > rs.offset {
-		n, err = rs.prefetchedBytes.Read(p)
+		// the prefetch may hold more than this body when the body size limit is
+		// below Content-Length: never hand out bytes beyond the body
+		pp := p
+		if remain := rs.contentLength - rs.offset; rs.contentLength >= 0 && len(pp) > remain {
+			pp = pp[:remain]
+		}
+		n, err = rs.prefetchedBytes.Read(pp)
 		rs.offset += n
 		if rs.offset == rs.contentLength {
 			return n, io.EOF
